@@ -78,3 +78,42 @@ Print Assumptions md_appendix_sound.
 Theorem well_formed_example : well_formed ex_net.
 Proof. exact ex_net_wf. Qed.
 Print Assumptions well_formed_example.
+
+(* ---------------------------------------------------------------- String() renderings *)
+(* [Acme.C16.ModelStr] models every stringify method as a structurally recursive function from the
+   entity tree to a list of lines ([tabs n] = getTabString): total by construction, never empty.
+   The run compares the model's text with Go's String() for every generated entity, exactly. *)
+From Acme.C16 Require Import ModelStr ProofsStr.
+
+Theorem string_total : forall n, net_string n = render (net_lines n) /\ net_string n <> ""%string.
+Proof. exact (fun n => conj eq_refl (net_string_nonempty n)). Qed.
+Print Assumptions string_total.
+
+(* Network.String() lists every child entity by name, at its indentation: every bus and its CAN-ID
+   builder (1 tab), every node (3) and sent message (3) of every interface, and every signal at
+   every multiplexing depth ([below 4 s t' c]: c is rendered at t' tabs somewhere below the
+   top-level signal s). *)
+Theorem string_lists_children : forall n b x m s t' c,
+  In b (nw_buses n) -> In x (bs_nifs b) -> In m (ni_sent x) -> In s (mg_sigs m) -> below 4 s t' c ->
+  In (name_line 1 (bs_ent b)) (net_lines n)
+  /\ In (name_line 1 (bd_ent (bs_builder b))) (net_lines n)
+  /\ In (name_line 3 (nd_ent (ni_node x))) (net_lines n)
+  /\ In (name_line 3 (mg_ent m)) (net_lines n)
+  /\ In (name_line t' (sb_ent (ssig_base c))) (net_lines n).
+Proof. exact net_lists_everything. Qed.
+Print Assumptions string_lists_children.
+
+(* The rendering of a signal lists the signals it multiplexes (any depth) ... *)
+Theorem string_signal_lists_children : forall t s t' c,
+  below t s t' c -> incl (sig_lines t' c) (sig_lines t s).
+Proof. exact below_incl. Qed.
+Print Assumptions string_signal_lists_children.
+
+(* ... and the definitions it refers to; an enum lists its values. *)
+Theorem string_lists_definitions :
+  (forall t b ty un, In (name_line (S t) (ty_ent ty)) (sig_lines t (StrStd b ty un)))
+  /\ (forall t b ty u, In (name_line (S t) (un_ent u)) (sig_lines t (StrStd b ty (Some u))))
+  /\ (forall t b en, In (name_line (S t) (en_ent en)) (sig_lines t (StrEnum b en)))
+  /\ (forall t en v, In v (en_values en) -> In (name_line (S t) (va_ent v)) (enum_lines t en)).
+Proof. exact (conj type_in_std (conj unit_in_std (conj enum_in_enum value_in_enum))). Qed.
+Print Assumptions string_lists_definitions.
